@@ -9,13 +9,13 @@ theorem em_evalVar (g : Globals) (n : Name) : EM (evalVar g n) := by
   cases h : s.lookupValue n with
   | some val =>
     simp only
-    exact ESteps.single (EStep.incEmit s _ rfl rfl rfl (by intro v hv; simp [Instr.usesValue] at hv; exact ⟨n, hv ▸ h⟩))
+    exact ESteps.single (EStep.incEmit s _ rfl rfl rfl (by intro v hv; simp [Instr.usesValue] at hv; exact ⟨n, hv ▸ h⟩) rfl)
   | none =>
     simp only
     cases hc : g.consts n with
     | some c =>
       simp only
-      exact ESteps.single (EStep.incEmit s _ rfl rfl rfl (by intro v hv; simp [Instr.usesValue] at hv))
+      exact ESteps.single (EStep.incEmit s _ rfl rfl rfl (by intro v hv; simp [Instr.usesValue] at hv) rfl)
     | none =>
       simp only
       exact ESteps.tail (ESteps.single (EStep.incReg s)) (EStep.addErr _ _ _ _ _)
@@ -26,7 +26,7 @@ theorem em_evalLit (v : PrimVal) : EM (evalLit v) := by
 theorem em_evalExt (tag : Nat) (ty : PrimTy) : EM (evalExt tag ty) := by
   intro s
   unfold evalExt
-  exact ESteps.single (EStep.incEmit s _ rfl rfl rfl (by intro v hv; simp [Instr.usesValue] at hv))
+  exact ESteps.single (EStep.incEmit s _ rfl rfl rfl (by intro v hv; simp [Instr.usesValue] at hv) rfl)
 
 theorem em_evalField (g : Globals) (vn attr : Name) : EM (evalField g vn attr) := by
   intro s
@@ -44,7 +44,7 @@ theorem em_evalField (g : Globals) (vn attr : Name) : EM (evalField g vn attr) :
         · split
           · exact ESteps.single (EStep.addErr _ _ _ _ _)
           · simp only
-            refine ESteps.tail (ESteps.single (EStep.incEmit s _ rfl rfl rfl ?_)) (EStep.incReg _)
+            refine ESteps.tail (ESteps.single (EStep.incEmit s _ rfl rfl rfl ?_ rfl)) (EStep.incReg _)
             intro v hv; simp [Instr.usesValue] at hv; exact ⟨vn, hv ▸ h⟩
     · exact ESteps.single (EStep.addErr _ _ _ _ _)
 
@@ -69,7 +69,7 @@ theorem em_evalPair (l r : EvalM) (o : Op) (hl : EM l) (hr : EM r) : EM (evalPai
           simp only
           split
           · exact (h1.trans h2).tail (EStep.addErr _ _ _ _ _)
-          · exact (h1.trans h2).tail (EStep.incEmit s2 _ rfl rfl rfl (by intro v hv; simp [Instr.usesValue] at hv))
+          · exact (h1.trans h2).tail (EStep.incEmit s2 _ rfl rfl rfl (by intro v hv; simp [Instr.usesValue] at hv) rfl)
 
 theorem em_runW (t : W EvalM) (h : ∀ m ∈ t.atoms, EM m) : EM (runW t) := by
   induction t with
@@ -124,7 +124,7 @@ theorem esteps_functionCall (g : Globals) (name : Name) (args : List EvalM) (h :
         rw [ha] at h1
         cases a with
         | none => exact h1
-        | some ps => exact h1.tail (EStep.incEmit s1 _ rfl rfl rfl (by intro v hv; simp [Instr.usesValue] at hv))
+        | some ps => exact h1.tail (EStep.incEmit s1 _ rfl rfl rfl (by intro v hv; simp [Instr.usesValue] at hv) rfl)
 
 theorem em_evalCall (g : Globals) (name : Name) (args : List EvalM) (h : ∀ m ∈ args, EM m) :
     EM (evalCall g name args) := by
@@ -196,7 +196,7 @@ theorem esteps_binding (g : Globals) (b : Bind) (s : St) : ESteps s (binding g b
         · exact h1.tail (EStep.addErr _ _ _ _ _)
         · split
           · exact h1.tail (EStep.addErr _ _ _ _ _)
-          · exact h1.tail (EStep.emit s1 _ rfl rfl rfl (by intro v hv; simp [Instr.usesValue] at hv; exact ⟨b.name, hv ▸ hl⟩) rfl)
+          · exact h1.tail (EStep.emit s1 _ rfl rfl rfl (by intro v hv; simp [Instr.usesValue] at hv; exact ⟨b.name, hv ▸ hl⟩) rfl rfl)
 
 theorem esteps_callStmt (g : Globals) (c : CallS) (s : St) : ESteps s (callStmt g c s) := by
   unfold callStmt
@@ -249,7 +249,7 @@ theorem esteps_condExprM (g : Globals) : ∀ (lc : LogicCond) (s : St), ESteps s
             · split
               · exact h12.tail (EStep.addErr _ _ _ _ _)
               · have h3 : ESteps s ((s2.incReg).push (.condExpr l r c.cond s2.incReg.curReg)) :=
-                  h12.tail (EStep.incEmit s2 _ rfl rfl rfl (by intro v hv; simp [Instr.usesValue] at hv))
+                  h12.tail (EStep.incEmit s2 _ rfl rfl rfl (by intro v hv; simp [Instr.usesValue] at hv) rfl)
                 cases right with
                 | none => exact h3
                 | some p =>
@@ -258,7 +258,7 @@ theorem esteps_condExprM (g : Globals) : ∀ (lc : LogicCond) (s : St), ESteps s
                   have h4 := esteps_condExprM g rc ((s2.incReg).push (.condExpr l r c.cond s2.incReg.curReg))
                   generalize condExprM g rc ((s2.incReg).push (.condExpr l r c.cond s2.incReg.curReg)) = res at h4
                   obtain ⟨rr, s3⟩ := res
-                  exact (h3.trans h4).tail (EStep.incEmit s3 _ rfl rfl rfl (by intro v hv; simp [Instr.usesValue] at hv))
+                  exact (h3.trans h4).tail (EStep.incEmit s3 _ rfl rfl rfl (by intro v hv; simp [Instr.usesValue] at hv) rfl)
 
 theorem esteps_ifCondCalc (g : Globals) (c : IfCond) (lb le ln : Name) (isElse : Bool) (s : St) :
     ESteps s (ifCondCalc g c lb le ln isElse s) := by
@@ -272,12 +272,12 @@ theorem esteps_ifCondCalc (g : Globals) (c : IfCond) (lb le ln : Name) (isElse :
       rw [he] at h1
       cases a with
       | none => exact h1
-      | some r => exact h1.tail (EStep.emit s1 _ rfl rfl rfl (by intro v hv; simp [Instr.usesValue] at hv) rfl)
+      | some r => exact h1.tail (EStep.branch s1 _ rfl rfl rfl rfl rfl)
   | logic lc =>
     dsimp only
     have h1 := esteps_condExprM g lc s
     generalize condExprM g lc s = res at h1
     obtain ⟨reg, s1⟩ := res
-    exact h1.tail (EStep.emit s1 _ rfl rfl rfl (by intro v hv; simp [Instr.usesValue] at hv) rfl)
+    exact h1.tail (EStep.branch s1 _ rfl rfl rfl rfl rfl)
 
 end SemVerif
